@@ -18,7 +18,7 @@ func registerC03() {
 		ID:    "C03",
 		Level: "exploration",
 		Rule: "family filetypes: all 256 file_id.type values (Decode, NewFile and the 17x17 accessor matrix: exactly the matching accessor returns a non-nil container, " +
-			"all others an error; the 239 values without a container must be rejected); family routing: for each of the 17 file types, PRNG interleavings of messages drawn from all " +
+			"all others an error, also after the File's public FileId.Type has been set to each of the 255 other values; the 239 values without a container must be rejected); family routing: for each of the 17 file types, PRNG interleavings of messages drawn from all " +
 			"101 known types and unknown numbers, each carrying a unique serial number, compared with the routing the declared container types prescribe (reflection on the public " +
 			"container structs: *XMsg = single-valued slot holding the last, []*XMsg = ordered slot); every file type without a container is also placed inside chains (good+X, X+good, good+X+good): DecodeChained must return an error and no container for X; family very-long: files with more than 2^22 (thorough: up to 2^24 + 5) one-byte filler records - of a message the file type does not hold, or of hrv, which it holds - in front of records, a lap and the activity message, all of which must reach their containers; non-trivial: at least one hosted and one non-hosted message; distinct by stream digest",
 		Assume: []string{
@@ -206,6 +206,25 @@ func c03FileType(c *lib.Ctx, idx uint64) {
 	}
 	if nf.Type() != fit.FileType(v) {
 		c.Violation(b, "NewFile(%d).Type() = %d", v, nf.Type())
+	}
+	// round 13: the accessors follow the file_id of the File as it is when they are called.
+	// A caller that re-labels a File (FileId is a public field) gets an error from every
+	// accessor that does not match the new label - the container of the old type included.
+	for k, ff := range []*fit.File{f, nf} {
+		for w := 0; w < 256; w++ {
+			if w == int(v) {
+				continue
+			}
+			ff.FileId.Type = fit.FileType(w)
+			ct := lib.FileContent(ff)
+			for i := range ct.AccessorOK {
+				if lib.FileTypes[i].Type != byte(w) && (ct.AccessorOK[i] || ct.AccessorNonNil[i]) {
+					c.Violation(b, "File of type %d (source %d) re-labelled to file_id.type %d: accessor %s returns no error (container handed out: %v) although it does not match the file_id type", v, k, w, lib.FileTypes[i].Name, ct.AccessorNonNil[i])
+				}
+			}
+			c.Count("accessor_calls_after_relabel", int64(len(ct.AccessorOK)))
+		}
+		ff.FileId.Type = fit.FileType(v)
 	}
 	c.Count("accepted_types", 1)
 	c.Nontrivial([]byte{v})
